@@ -169,6 +169,12 @@ func verifSpecResultQ(c *Context, neg bool, N, D *BigInt, e int64, d *Decimal, r
 	}
 	adj := e + lead
 	subn := adj < emin
+	if P == 0 && (subn || adj > emax) {
+		// Rounding disabled: the claim is the exact result "subject only to the exponent
+		// limits"; what happens to an exact result outside [Emin, Emax] is not specified
+		// (apd's subnormal exponent Emin-P+1 degenerates to Emin+1).
+		return true, true, fit
+	}
 	// s = q - e, where 10^q is the rounding quantum (may be negative for quotients)
 	var s int64
 	limited := false // is there a quantum at all (P == 0 and not subnormal: exact result required)
